@@ -234,6 +234,14 @@ func genC20(r *RNG, tier string) []Case {
 			}
 			if r.Chance(1, 3) {
 				ev.Query = replication.Query{SQL: weirdString(r, 1+r.Intn(30))}
+				if r.Chance(1, 2) {
+					// the session charset of the statement (latin1 = 8 is the default of 5.5-5.7 clients) is carried next
+					// to the text; the text itself is rendered as it is
+					ev.Query.Charset = &replication.Charset{Client: int32(r.Pick(8, 8, 33, 45, 63, 255, 1)), Conn: int32(r.Pick(8, 33, 45, 224)), Server: int32(r.Pick(8, 33, 45, 255))}
+					if r.Bool() {
+						ev.Query.SQL = "CREATE TABLE caf\u00e9_\u4e2d\u6587 (na\u00efve INT) COMMENT '\u20ac " + ev.Query.SQL + "'"
+					}
+				}
 			} else {
 				mk := func() []*gobinlog.RowData {
 					if r.Chance(1, 6) {
